@@ -113,7 +113,10 @@ def h_eq_shared(d, sx, lb, lf, feat, depth):
 def h_str(d, sx, lb, lf, feat, delta):
     x = _mk(d, 'x', sx, lb, lf, feat)
     t = sym_str(x)
-    n = len(t) + delta
+    if delta == 'any':          # a string of any length from 0 to one more than the canonical text (e.g. the bare base of a featured atom)
+        n = d.choice('len', len(t) + 2)
+    else:
+        n = len(t) + delta
     if n < 0:
         return True
     s = d.string('s', n, ANYCHAR)
@@ -260,8 +263,8 @@ def obligations(tier):
                     yield Obligation('C13.eq[%s,%s,lb=%d,lf=%d,%s]' % (shape_name(sx), shape_name(sy), lb, lf, feat), 'h_eq',
                                      dict(sx=sx, sy=sy, lb=lb, lf=lf, feat=feat))
             for sx in sh:
-                for delta in (0, -1, 1):
-                    yield Obligation('C13.str[%s,lb=%d,lf=%d,%s,d=%d]' % (shape_name(sx), lb, lf, feat, delta), 'h_str',
+                for delta in (0, -1, 1) + (('any',) if catgen.nleaves(sx) <= 2 else ()):
+                    yield Obligation('C13.str[%s,lb=%d,lf=%d,%s,d=%s]' % (shape_name(sx), lb, lf, feat, delta), 'h_str',
                                      dict(sx=sx, lb=lb, lf=lf, feat=feat, delta=delta))
     for feat in ('mixed', 'ternary'):
         for sx in shapes_upto(3 if q else 4):
